@@ -26,7 +26,7 @@ CONSTANTS Fam,        \* "hypercube" | "simplex"
           PartSets,   \* set of sets of part tags, tags in {"A","B","C","D","E"}
           PtnCfgs,    \* subset of {0, 1, 2}
           Indents,    \* subset of BOOLEAN
-          ChartKinds, \* subset of 0..5: which chart the atlas holds (see ChartBody)
+          ChartKinds, \* subset of 0..7 (2D: 0..2): which chart the atlas holds (see ChartBody)
           Muts        \* BOOLEAN: also enumerate every single structured mutation of every document
 
 VARIABLES ph, doc, mut
@@ -145,7 +145,9 @@ PSize(p) == [e1 \in 1..(Dim + 1) |-> Len(p.map[e1])]
 \*   [kind "sphere", radius, mid]                                        3D
 \*   [kind "bezier", closed, orient (1 | -1), pts, params]               2D; pts[k] = [ctrl |-> control points, v |-> vertex point]
 \*   [kind "extrude", origin, offset, angles (<< >> = not given), sub]   3D; sub = circle or bezier body
-\* (SurfaceMesh charts are covered on the shipped files, direction V).  Angles are yaw-pitch-roll in revolutions.
+\*   [kind "surfmesh", sverts, trias]                                    3D; surface triangulation: vertex coordinate triplets,
+\*                                                                       triangles as triplets of vertex indices
+\* Angles are yaw-pitch-roll in revolutions.
 Pt(x, y) == << x, y >>
 CircleBody(withdom) == [kind |-> "circle", radius |-> Dy(3, 1), mid |-> [a \in 1..2 |-> Coord(a, 1)],
                         dom |-> IF withdom THEN << Dy(0, 0), Dy(4, 0) >> ELSE << >>]
@@ -163,6 +165,15 @@ BezierClosed == [kind |-> "bezier", closed |-> TRUE, orient |-> -1,
                             [ctrl |-> << Pt(Dy(3, 1), Dy(3, 2)) >>, v |-> Pt(Dy(1, 0), Dy(1, 0))],
                             [ctrl |-> << >>, v |-> Pt(Dy(0, 0), Dy(0, 0))] >>,
                  params |-> << >>]
+\* surface triangulations: the closed surface of a tetrahedron; an open strip of two triangles plus a vertex no triangle uses
+SurfTetra == [kind |-> "surfmesh",
+              sverts |-> << << Dy(0, 0), Dy(0, 0), Dy(0, 0) >>, << Dy(1, 0), Dy(0, 0), Dy(-1, 2) >>,
+                            << Dy(0, 0), Dy(3, 1), Dy(0, 0) >>, << Dy(1, 3), Dy(1, 2), Dy(2, 0) >> >>,
+              trias |-> << <<0, 2, 1>>, <<0, 1, 3>>, <<1, 2, 3>>, <<0, 3, 2>> >>]
+SurfStrip == [kind |-> "surfmesh",
+              sverts |-> << << Dy(-1, 0), Dy(0, 0), Dy(1, 1) >>, << Dy(1, 0), Dy(0, 0), Dy(1, 1) >>, << Dy(0, 0), Dy(5, 2), Dy(0, 0) >>,
+                            << Dy(2, 0), Dy(3, 3), Dy(-3, 1) >>, << Dy(7, 0), Dy(7, 0), Dy(7, 0) >> >>,
+              trias |-> << <<0, 1, 2>>, <<2, 1, 3>> >>]
 Extr(ori, off, ang, sub) == [kind |-> "extrude", origin |-> ori, offset |-> off, angles |-> ang, sub |-> sub]
 Ang(y, p, r) == << Dy(y, 3), Dy(p, 3), Dy(r, 3) >>      \* eighths of a revolution
 ChartBody(ck, n) ==
@@ -172,7 +183,9 @@ ChartBody(ck, n) ==
   ELSE IF ck = 2 THEN Extr(<< >>, << >>, Ang(1, 2, -2), CircleBody(TRUE))                  \* pitch +1/4: gimbal lock
   ELSE IF ck = 3 THEN Extr(<< >>, << Dy(0, 0), Dy(0, 0), Dy(0, 0) >>, Ang(1, -2, 2), BezierOpen)   \* pitch -1/4: gimbal lock; zero offset given
   ELSE IF ck = 4 THEN Extr(Pt(Dy(0, 0), Dy(3, 2)), << >>, Ang(-3, -2, 1), CircleBody(FALSE))      \* pitch -1/4 again, other yaw/roll
-  ELSE Extr(<< >>, << >>, Ang(0, 0, 0), BezierClosed)                                       \* identity rotation given explicitly
+  ELSE IF ck = 5 THEN Extr(<< >>, << >>, Ang(0, 0, 0), BezierClosed)                       \* identity rotation given explicitly
+  ELSE IF ck = 6 THEN SurfTetra
+  ELSE SurfStrip
 ChartsOf(S, ck, n) ==
   IF "B" \in S \/ "E" \in S \/ "A" \in S THEN << [name |-> "c0", body |-> ChartBody(ck, n)] >> ELSE << >>
 
@@ -207,10 +220,11 @@ MkDoc(n, S, cfg, ind, par, ck) ==
 \* ---------------------------------------------------------------------------------------------------------------------
 \* the writer grammar: structured lines
 \* ---------------------------------------------------------------------------------------------------------------------
-Open(l, n, a) == [k |-> "open",  lvl |-> l, name |-> n, attrs |-> a, toks |-> << >>]
-Leaf(l, n, a) == [k |-> "leaf",  lvl |-> l, name |-> n, attrs |-> a, toks |-> << >>]
-Close(l, n)   == [k |-> "close", lvl |-> l, name |-> n, attrs |-> << >>, toks |-> << >>]
-Data(l, n, t) == [k |-> "data",  lvl |-> l, name |-> n, attrs |-> << >>, toks |-> t]   \* name = enclosing block
+\* fl: indentation level of the line when the writer does NOT indent (0 everywhere except inside a SurfaceMesh chart, see SurfLines)
+Open(l, n, a) == [k |-> "open",  lvl |-> l, name |-> n, attrs |-> a, toks |-> << >>, fl |-> 0]
+Leaf(l, n, a) == [k |-> "leaf",  lvl |-> l, name |-> n, attrs |-> a, toks |-> << >>, fl |-> 0]
+Close(l, n)   == [k |-> "close", lvl |-> l, name |-> n, attrs |-> << >>, toks |-> << >>, fl |-> 0]
+Data(l, n, t) == [k |-> "data",  lvl |-> l, name |-> n, attrs |-> << >>, toks |-> t, fl |-> 0]   \* name = enclosing block
 Block(l, n, a, rows) == << Open(l, n, a) >> \o [i \in 1..Len(rows) |-> Data(l + 1, n, rows[i])] \o << Close(l, n) >>
 
 TypeStr == "conformal:" \o Fam \o ":" \o IStr(Dim) \o ":" \o IStr(Dim)
@@ -228,8 +242,20 @@ SimpleBodyLines(b, l) ==
     \o Block(l + 1, "Points", << >>, [k \in 1..Len(b.pts) |-> PointRow(b.pts[k])])
     \o (IF Len(b.params) > 0 THEN Block(l + 1, "Params", << >>, [k \in 1..Len(b.params) |-> << DStr(b.params[k]) >>]) ELSE << >>)
     \o << Close(l, "Bezier") >>
+\* SurfaceMesh: the counts are the attributes verts / trias; doxy_in/mesh_format.dox writes them verts="8", the writer
+\* (Atlas::SurfaceMesh::write) emits a blank in front of the number (verts=" 8"), which denotes the same count.  The chart writer
+\* indents its child blocks relative to its own markup whether or not the file is indented (fl: 1 for the block markups, 2 for
+\* their content lines); indentation is insignificant to the reader.
+SurfLines(b, l, asin) ==
+  LET cnt(n) == (IF asin THEN "" ELSE " ") \o IStr(n)
+      inner(L) == [i \in 1..Len(L) |-> [L[i] EXCEPT !.fl = IF L[i].k = "data" THEN 2 ELSE 1]] IN
+  << Open(l, "SurfaceMesh", << <<"verts", cnt(Len(b.sverts))>>, <<"trias", cnt(Len(b.trias))>> >>) >>
+  \o inner(Block(l + 1, "Vertices", << >>, [v \in 1..Len(b.sverts) |-> DStrs(b.sverts[v])]))
+  \o inner(Block(l + 1, "Triangles", << >>, [t \in 1..Len(b.trias) |-> IStrs(b.trias[t])]))
+  \o << Close(l, "SurfaceMesh") >>
 BodyLines(b, l, asin) ==
-  IF b.kind # "extrude" THEN SimpleBodyLines(b, l)
+  IF b.kind = "surfmesh" THEN SurfLines(b, l, asin)
+  ELSE IF b.kind # "extrude" THEN SimpleBodyLines(b, l)
   ELSE LET ori == IF asin THEN b.origin ELSE CanonVec(b.origin)
            off == IF asin THEN b.offset ELSE CanonVec(b.offset)
            ang == IF asin THEN b.angles ELSE CanonAngles(b.angles) IN
@@ -280,7 +306,7 @@ Sp(ind, l) == IF ~ind \/ l = 0 THEN "" ELSE IF l = 1 THEN "  " ELSE IF l = 2 THE
               ELSE IF l = 4 THEN "        " ELSE "          "
 AttrStr(a) == Join([i \in 1..Len(a) |-> " " \o a[i][1] \o "=\"" \o a[i][2] \o "\""], "")
 Render(ind, r) ==
-  Sp(ind, r.lvl) \o (IF r.k = "open" THEN "<" \o r.name \o AttrStr(r.attrs) \o ">"
+  (IF ind THEN Sp(TRUE, r.lvl) ELSE Sp(TRUE, r.fl)) \o (IF r.k = "open" THEN "<" \o r.name \o AttrStr(r.attrs) \o ">"
                      ELSE IF r.k = "leaf" THEN "<" \o r.name \o AttrStr(r.attrs) \o " />"
                      ELSE IF r.k = "close" THEN "</" \o r.name \o ">"
                      ELSE Join(r.toks, " "))
@@ -290,7 +316,8 @@ OutText(D) == Text(D.indent, Lines(D, FALSE))
 \* ---------------------------------------------------------------------------------------------------------------------
 \* structured mutations of In(D) and their verdict
 \* ---------------------------------------------------------------------------------------------------------------------
-\* edit: op in {"trunc" (keep `at` lines), "del" (line at), "ins" (text before line at), "rep" (line at := text)}
+\* edit: op in {"trunc" (keep `at` lines), "del" (line at), "ins" (text before line at), "rep" (line at := text),
+\*              "delr" (delete lines at..text), "dupr" (lines at..text twice); text = last line number as decimal}
 \* v: verdict; el: line number the error is reported for (0 = not fixed by the spec); out: text written after "ok"
 \* (<< >> = Out(D))
 M(kind, op, at, text, v, el) == [kind |-> kind, op |-> op, at |-> at, text |-> text, v |-> v, el |-> el, out |-> << >>]
@@ -301,6 +328,7 @@ Mandatory(name) ==
     [] name = "Chart" -> {"name"}
     [] name \in {"Circle", "Sphere"} -> {"radius", "midpoint"}
     [] name = "Bezier" -> {"dim", "size"}
+    [] name = "SurfaceMesh" -> {"verts", "trias"}
     [] name = "Mesh" -> {"type", "size"}
     [] name \in {"Topology", "Mapping"} -> {"dim"}
     [] name = "MeshPart" -> {"name", "parent", "size", "topology"}
@@ -352,7 +380,7 @@ Mutations(D) ==
       Unknown == {M("unknown_markup", "ins", i, "<Foo>", IF i = n + 1 THEN "ok" ELSE "grammar", IF i = n + 1 THEN 0 ELSE i) : i \in 1..(n + 1)}
       Unbal == {M("stray_terminator", "ins", i, "</Foo>", IF i = n + 1 THEN "ok" ELSE "syntax", IF i = n + 1 THEN 0 ELSE i) : i \in 1..(n + 1)}
       Stray == {M("stray_content", "ins", i, "0", "grammar", i)
-                  : i \in {j \in 2..n : EnclIdx(j) # 0 /\ L[EnclIdx(j)].name \in {"FeatMeshFile", "Chart", "Extrude", "Bezier", "Mesh", "MeshPart", "Partition"}}}
+                  : i \in {j \in 2..n : EnclIdx(j) # 0 /\ L[EnclIdx(j)].name \in {"FeatMeshFile", "Chart", "Extrude", "Bezier", "SurfaceMesh", "Mesh", "MeshPart", "Partition"}}}
 
       \* degenerate markups: a markup line without a name, or terminator and closed at the same time, is a syntax error of
       \* that line whatever stands around the slashes
@@ -542,7 +570,7 @@ Mutations(D) ==
                              ELSE {} : i \in DataIn("Mapping")}
 
       \* malformed numbers / token counts
-      MultiTok == DataIn("Vertices") \cup DataIn("Topology") \cup DataIn("Attribute")
+      MultiTok == DataIn("Vertices") \cup DataIn("Topology") \cup DataIn("Attribute") \cup DataIn("Triangles")
       PointTok == UNION {{M("token_count", "rep", i, R([L[i] EXCEPT !.toks = Append(@, "0")]), "content", i)} \cup
                          {M("token_not_a_number", "rep", i, RepTok(i, t, "abc"), "content", i) : t \in 1..Len(L[i].toks)}
                          : i \in DataIn("Points")}
@@ -560,9 +588,50 @@ Mutations(D) ==
                  {M("token_trailing_garbage", "rep", i, RepTok(i, 1, L[i].toks[1] \o " 0"), "content", i) : i \in DataIn("Mapping") \cup DataIn("Patch")} \cup
                  {M("token_trailing_garbage", "rep", i, RepTok(i, t, L[i].toks[t] \o ".5"), "content", i)
                     : i \in DataIn("Topology"), t \in {1}}
+
+      \* SurfaceMesh chart: the declared counts are the attributes verts / trias of the chart markup; a triangle is a triplet
+      \* of indices of the chart's own vertices
+      SurfBlock(i, key) == CHOOSE j \in (i + 1)..CloseIdx(i) : L[j].k = "open" /\ L[j].name = (IF key = "verts" THEN "Vertices" ELSE "Triangles")
+      SurfCount(i, key, dlt) ==
+        LET b == SurfBlock(i, key) IN
+          M("chart_count", "rep", i, R(SetAttr(L[i], key, IStr(NData(b) + dlt))), IF dlt > 0 THEN "grammar" ELSE "content",
+            IF dlt > 0 THEN CloseIdx(b) ELSE CloseIdx(b) - 1)
+      SurfCounts == UNION {{SurfCount(i, key, dlt) : key \in {"verts", "trias"}, dlt \in {1, -1}} \cup
+                           \* a count is a natural number
+                           {M("chart_count_attr", "rep", i, R(SetAttr(L[i], key, t)), "grammar", i) : key \in {"verts", "trias"}, t \in {"x", "-1", ""}}
+                             : i \in DimLines("SurfaceMesh")}
+      TriIdx == UNION {{M("chart_vertex_index_range", "rep", i, RepTok(i, t, x), "content", i)
+                          : t \in 1..Len(L[i].toks), x \in {IStr(NData(SurfBlock(EnclIdx(EnclIdx(i)), "verts"))), "-1"}} : i \in DataIn("Triangles")}
+
+      \* a counted block (only content lines inside) holds the declared number of entries of its parent: without the block
+      \* these entries are missing, with a second copy of it there are twice as many as declared -- both violate the count.
+      \* Optional blocks (Attribute, Bezier Params, the Patch of a rank) may be left out: the document without them.  Attribute
+      \* and Patch blocks are identified by their name / rank attribute, a second one is a key collision and no count violation:
+      \* not judged.  The mutation kind names the block (e.g. "dup_block:Bezier/Points").
+      CountedBlocks == {j \in 1..n : L[j].k = "open" /\ L[j].name \in {"Vertices", "Topology", "Mapping", "Attribute", "Points", "Params", "Patch", "Triangles"}}
+      BlockName(j) == L[EnclIdx(j)].name \o "/" \o L[j].name
+      ChartAt(o) == Cardinality({j \in 1..o : L[j].k = "open" /\ L[j].name = "Chart"})
+      WithoutBlock(j) ==
+        IF L[j].name = "Attribute" THEN
+          LET p == PartAt(j)
+              a == Cardinality({x \in 1..j : L[x].k = "open" /\ L[x].name = "Attribute" /\ PartAt(x) = p})
+              A == D.parts[p].attrs
+          IN [D EXCEPT !.parts[p].attrs = SubSeq(A, 1, a - 1) \o SubSeq(A, a + 1, Len(A))]
+        ELSE IF L[j].name = "Params" THEN
+          LET c == ChartAt(j)  B == D.charts[c].body
+          IN [D EXCEPT !.charts[c].body = IF B.kind = "extrude" THEN [B EXCEPT !.sub.params = << >>] ELSE [B EXCEPT !.params = << >>]]
+        ELSE LET q == PtnAt(j)
+                 r == CHOOSE r \in 1..D.ptns[q].np : GetAttr(L[j], "rank") = IStr(r - 1)
+             IN [D EXCEPT !.ptns[q].patches[r] = << >>]
+      DelBlock == {IF L[j].name \in {"Attribute", "Params", "Patch"}
+                   THEN MOk("del_block:" \o BlockName(j), "delr", j, IStr(CloseIdx(j)), WithoutBlock(j))
+                   ELSE M("del_block:" \o BlockName(j), "delr", j, IStr(CloseIdx(j)), "reject", 0) : j \in CountedBlocks}
+      DupBlock == {M("dup_block:" \o BlockName(j), "dupr", j, IStr(CloseIdx(j)), "reject", 0)
+                     : j \in {x \in CountedBlocks : NData(x) > 0 /\ L[x].name \notin {"Attribute", "Patch"}}}
   IN Trunc \cup Degenerate \cup DelData \cup DupData \cup DelOpen \cup DelLeaf \cup DelClose \cup Unknown \cup Unbal \cup Stray
      \cup MissAttr \cup ExtraAttr \cup ClosedMk \cup Counts \cup SizeLen \cup TopoDim \cup MapDim \cup AttrDim
      \cup MeshType \cup RootType \cup PartAttr \cup PtnAttr \cup ChartAttr \cup TopoIdx \cup PatchIdx \cup MapIdx \cup MapMissing \cup Tokens \cup Garbage
+     \cup SurfCounts \cup TriIdx \cup DelBlock \cup DupBlock
 
 \* ---------------------------------------------------------------------------------------------------------------------
 \* behaviours: pick a document; (optionally) pick one mutation of it
@@ -604,6 +673,12 @@ DocValid ==
        /\ P.par => P.full /\ P.ptopo = Deduced(doc.topo, P.map)
        /\ \A a \in 1..Len(P.attrs) : Len(P.attrs[a].vals) = Len(P.map[1]) /\ \A i \in 1..Len(P.attrs[a].vals) : \A j \in 1..P.attrs[a].dim : DyOk(P.attrs[a].vals[i][j])
        /\ P.chart # "" => \E c \in 1..Len(doc.charts) : doc.charts[c].name = P.chart
+  \* a surface triangulation: coordinate triplets, triangles with three different vertices of the chart
+  /\ \A c \in 1..Len(doc.charts) : doc.charts[c].body.kind = "surfmesh" =>
+       LET B == doc.charts[c].body IN
+         /\ \A v \in 1..Len(B.sverts) : Len(B.sverts[v]) = 3 /\ \A a \in 1..3 : DyOk(B.sverts[v][a])
+         /\ \A t \in 1..Len(B.trias) : /\ Len(B.trias[t]) = 3 /\ Cardinality(TRange(B.trias[t])) = 3
+                                        /\ TRange(B.trias[t]) \subseteq 0..(Len(B.sverts) - 1)
   /\ \A q \in 1..Len(doc.ptns) : LET Q == doc.ptns[q] IN
        /\ Len(Q.patches) = Q.np /\ Q.level >= 0
        /\ \A r \in 1..Q.np : \A i \in 1..Len(Q.patches[r]) :
@@ -613,7 +688,7 @@ Balanced(L) == /\ L[1].k = "open" /\ L[Len(L)].k = "close" /\ L[1].lvl = 0 /\ L[
                /\ \A i \in 2..(Len(L) - 1) : L[i].lvl >= 1
                /\ Cardinality({i \in 1..Len(L) : L[i].k = "open"}) = Cardinality({i \in 1..Len(L) : L[i].k = "close"})
 GrammarSane == Balanced(Lines(doc, TRUE)) /\ Balanced(Lines(doc, FALSE))
-               /\ (((\A p \in 1..Len(doc.parts) : ~doc.parts[p].par) /\ (\A c \in 1..Len(doc.charts) : doc.charts[c].body.kind # "extrude"))
+               /\ (((\A p \in 1..Len(doc.parts) : ~doc.parts[p].par) /\ (\A c \in 1..Len(doc.charts) : doc.charts[c].body.kind \notin {"extrude", "surfmesh"}))
                       => Lines(doc, TRUE) = Lines(doc, FALSE))
                \* the canonical form is a fixed point: writing the written document changes nothing
                /\ \A c \in 1..Len(doc.charts) : doc.charts[c].body.kind = "extrude" =>
